@@ -30,7 +30,7 @@ REQUIRED_THEOREMS = [
     "Acn.C04.pilotAt_latest", "Acn.C04.pilotAt_uncovered", "Acn.C04.overlay_refines",
     "Acn.C04.overlay_refines_from", "Acn.C04.applied_eq_spec", "Acn.C04.run_no_indexError",
     "Acn.C04.runPeriods_eq_runTrips", "Acn.C04.trips_applied_eq_spec", "Acn.C04.step_applied_eq_spec",
-    "Acn.C04.step_no_indexError", "Acn.C04.last_applied_eq_column",
+    "Acn.C04.step_no_indexError", "Acn.C04.last_applied_eq_column", "Acn.C04.last_applied_eq_spec",
 ]
 BUDGET = {"quick": 700, "thorough": 6000, "search": 4000}
 TRUSTED = ["numpy slice assignment / np.array densification / float conversion of int and numpy values "
@@ -936,6 +936,21 @@ def corpus():
                  {"t": 3, "queue": [9], "sched": [["A", _r([1])], ["Q", _r([1])]]},
                  {"t": 3, "queue": [9], "sched": [["A", _r([1])], ["B", _r([1, 2])]]},
                  {"t": 8, "queue": [9], "sched": [["A", {"c": "tuple", "v": [3, 4, 5, 6]}]]}]},
+        # value transport: every row kind into the float matrix, integers that are not exact in float32 / float64
+        {"mode": "direct", "stations": ["A", "B"], "limit": None, "start_queue": [3],
+         "ops": [{"t": 0, "queue": [3], "sched": [["A", {"c": "intarray", "v": [16777217, 2 ** 53 + 1]}],
+                                                   ["B", {"c": "float32array", "v": [0.1, 16777217]}]]},
+                 {"t": 1, "queue": [3], "sched": [["A", {"c": "len1array", "v": [0.30000000000000004]}],
+                                                   ["B", {"c": "zerod", "v": [123456789]}]]},
+                 {"t": 2, "queue": [3], "sched": [["A", {"c": "mixed", "v": [7, 7.5, 8.25, 9]}],
+                                                   ["B", {"c": "npint", "v": [2 ** 62 + 3, 1, 2, 3]}]]}]},
+        # step(): three calls, the driver clears the pending recompute before each (see F17 for what happens if not)
+        {"mode": "step", "stations": ["S1", "S0"], "limit": None, "max_recompute": 2, "recompute": [3],
+         "sessions": [{"station": "S1", "arrival": 1, "departure": 5, "session": "a"},
+                      {"station": "S0", "arrival": 2, "departure": 4, "session": "b"}],
+         "calls": [{"sched": [["S1", _r([1, 2, 3])]], "unstick": True}, {"sched": [["S0", _r([7, 8])]], "unstick": True},
+                   {"sched": [], "unstick": True}, {"sched": [["S1", _r([4])], ["S0", _r([5])]], "unstick": True},
+                   {"sched": [["S1", _r([6, 6, 6, 6, 6, 6])]], "unstick": True}]},
         # infeasible schedule only warns; every period rescheduled; last period reaches beyond the horizon
         {"mode": "run", "stations": ["S1", "S0"], "limit": 5, "maxrate": None,
          "sessions": [{"station": "S1", "arrival": 0, "departure": 3, "session": "a"},
